@@ -300,6 +300,13 @@ def Scanner.Next (s : Scanner) : TokV × Scanner :=
   match s.toks with
   | [] => (⟨Token.EOF, []⟩, s)
   | t :: r => (t, ⟨r⟩)
+def math_MaxInt32 : Int := 2147483647
+/-- route/grafananet.go `type GrafanaNetConfig struct`, the fields the constructor validates -/
+structure GrafanaNetConfig where
+  Concurrency : Int
+  BufSize : Int
+  FlushMaxNum : Int
+  FlushMaxWait : Int
 def time_Second : Int := 1000000000
 def time_Millisecond : Int := 1000000
 def time_Microsecond : Int := 1000
